@@ -14,6 +14,7 @@ import (
 	"encoding/base64"
 	"encoding/binary"
 	"fmt"
+	"io"
 	"os"
 	"path/filepath"
 	"strings"
@@ -56,7 +57,28 @@ type Case struct {
 	Runs []RunSpec
 	// Reuse: the real handler object (and its forwarded connection) is built once and used by every run.
 	Reuse bool
+	// ShortEntropy: during this history the process's entropy source (crypto/rand.Reader, a variable a
+	// deployment may point at a DRBG / HSM / FIPS wrapper) hands out 1..7 bytes per Read call, as any
+	// io.Reader may. Sequential sub-checks only.
+	ShortEntropy bool `json:",omitempty"`
 }
+
+// shortReader is a legal io.Reader over the real entropy source that returns at most a few bytes per call.
+type shortReader struct {
+	inner io.Reader
+	n     int
+}
+
+func (r *shortReader) Read(b []byte) (int, error) {
+	r.n++
+	max := 1 + r.n%7
+	if len(b) > max {
+		b = b[:max]
+	}
+	return r.inner.Read(b)
+}
+
+var entropyMu sync.Mutex
 
 var names = []string{"alice", "bob", "carol", "alice.pub"}
 var userKeys = []string{"p256b", "ed25519b", "rsa2048b", "p384a"}
@@ -148,6 +170,7 @@ func gen(t *rapid.T) Case {
 	c.Held = rapid.SliceOfNDistinct(rapid.SampledFrom(userKeys), 0, 3, func(s string) string { return s }).Draw(t, "held")
 	n := rapid.IntRange(1, 4).Draw(t, "nruns")
 	c.Reuse = rapid.Bool().Draw(t, "reuseHandler")
+	c.ShortEntropy = rapid.IntRange(0, 7).Draw(t, "shortEntropy") == 3
 	for i := 0; i < n; i++ {
 		l := fmt.Sprintf("run%d", i)
 		var edit map[string]string
@@ -234,6 +257,13 @@ func poolKeyByBlob(blob []byte) string {
 
 func exec(c Case) (vh.Outcome, error) {
 	out := vh.Outcome{}
+	if c.ShortEntropy {
+		entropyMu.Lock()
+		orig := rand.Reader
+		rand.Reader = &shortReader{inner: orig}
+		defer func() { rand.Reader = orig; entropyMu.Unlock() }()
+		out.Classes = append(out.Classes, "short-reads-from-the-entropy-source")
+	}
 	p, err := vh.NewProxy()
 	if err != nil {
 		return out, nil
@@ -508,6 +538,26 @@ func exec(c Case) (vh.Outcome, error) {
 			if len(s.data) != 64 {
 				return out, vh.Errf("%s: challenge of %d bytes", where, len(s.data))
 			}
+			// unpredictable: 64 bytes from the entropy source hold a zero byte once in four challenges; 17 or more
+			// of them (chance below 1e-25) means most of the challenge was never filled
+			zeros := 0
+			for _, b := range s.data {
+				if b == 0 {
+					zeros++
+				}
+			}
+			distinct := map[byte]bool{}
+			for _, b := range s.data {
+				distinct[b] = true
+			}
+			// 64 bytes from the entropy source show 57 different values on average; fewer than 36 (chance about
+			// 1e-15) means most of the challenge is text or padding somebody can predict
+			if len(distinct) < 36 {
+				return out, vh.Errf("%s: the challenge %x (%q) holds only %d different byte values in 64 bytes: most of it is predictable", where, s.data, s.data, len(distinct))
+			}
+			if zeros >= 17 {
+				return out, vh.Errf("%s: the challenge %x holds %d zero bytes of 64: it was not filled from the entropy source (short reads from the entropy source: %v)", where, s.data, zeros, c.ShortEntropy)
+			}
 			if K == nil || isReg(s.keyBlob) == nil {
 				return out, vh.Errf("%s: the agent was challenged under a key that is not the one registered for %q (file %q)", where, r.LogName, regFile)
 			}
@@ -639,7 +689,7 @@ func orDefault(name string) string {
 	return name
 }
 
-const rule = "histories of 1..4 runs of gensign.Run sharing one registered-key directory (a third of the later runs first replace, break or delete a '<name>.pub' / '<name>' file) and one scripted forwarded agent; in half of the histories every run uses the same regular.Handler object and forwarded connection, otherwise each run builds its own. Per run: login name (incl. names of other users and 'alice.pub'), namespace policy NONS / NSOK and spellings that are neither (other letter case, a trailing blank, empty, a prefix, both joined), hardware-key flag, client-declared user / host different from the login name (short, or 55..3000 bytes long), parameters built directly or through NewReqParam, agent behaviour {honest, lacks the key, signs with another key, signs other data, replays a signature captured earlier in the history, garbage, empty signature, failure, closes the connection}, handler list of 1..4 entries (in a quarter of the runs all harness handlers report one and the same name - the real handler's or another -, as instances of one handler type do) with at most one real regular handler among accepting harness handlers and harness handlers rejecting with every kind of error (authentication, disabled, invalid parameters, unknown, panic-typed, untyped) or panicking inside Authenticate, and accepting harness handlers whose Generate then fails (generation, configuration or untyped error); a tenth of the directly built parameter sets carry no client attributes at all. Directory: '<n>.pub' and bare '<n>' files holding any user's key (RSA, ECDSA, Ed25519, and the types nobody can answer for through the forwarded agent: security-key types (the honest agent does answer for the sk-ed25519 one, as a token would), a certificate line, DSA), both with different keys, unparsable, absent; a tenth of the key files hold 2..4 lines (keys of any of these kinds, unparsable lines), where a proof under any line's key counts as a proof under a registered key. Oracle: the harness sees every sign request and reply and decides itself (K.Verify over this run's challenge under the registered key) whether the real handler may authenticate; CA call or add-identity => the selected handler is the first in list order that authenticates, earlier ones asked once, later ones never; none => AllAuthFailed, no Generate, no CA call, no add; a handler that crashes while authenticating never counts as authenticated (error returned, no CA call, no add, no later handler used); the first handler that authenticates cannot generate => error, no CA call, no add, no later handler used; a handler authenticates (and generates) => the run succeeds with exactly one request from that handler; challenges are 64 bytes, only under the registered key, pairwise distinct over the history. Non-trivial: an adversarial agent while the key file exists, or a reject before an accept in a list of >= 2."
+const rule = "histories of 1..4 runs of gensign.Run sharing one registered-key directory (a third of the later runs first replace, break or delete a '<name>.pub' / '<name>' file) and one scripted forwarded agent; in half of the histories every run uses the same regular.Handler object and forwarded connection, otherwise each run builds its own. In an eighth of the histories the process's entropy source (crypto/rand.Reader) hands out only 1..7 bytes per Read call, as an io.Reader may. Per run: login name (incl. names of other users and 'alice.pub'), namespace policy NONS / NSOK and spellings that are neither (other letter case, a trailing blank, empty, a prefix, both joined), hardware-key flag, client-declared user / host different from the login name (short, or 55..3000 bytes long), parameters built directly or through NewReqParam, agent behaviour {honest, lacks the key, signs with another key, signs other data, replays a signature captured earlier in the history, garbage, empty signature, failure, closes the connection}, handler list of 1..4 entries (in a quarter of the runs all harness handlers report one and the same name - the real handler's or another -, as instances of one handler type do) with at most one real regular handler among accepting harness handlers and harness handlers rejecting with every kind of error (authentication, disabled, invalid parameters, unknown, panic-typed, untyped) or panicking inside Authenticate, and accepting harness handlers whose Generate then fails (generation, configuration or untyped error); a tenth of the directly built parameter sets carry no client attributes at all. Directory: '<n>.pub' and bare '<n>' files holding any user's key (RSA, ECDSA, Ed25519, and the types nobody can answer for through the forwarded agent: security-key types (the honest agent does answer for the sk-ed25519 one, as a token would), a certificate line, DSA), both with different keys, unparsable, absent; a tenth of the key files hold 2..4 lines (keys of any of these kinds, unparsable lines), where a proof under any line's key counts as a proof under a registered key. Oracle: the harness sees every sign request and reply and decides itself (K.Verify over this run's challenge under the registered key) whether the real handler may authenticate; CA call or add-identity => the selected handler is the first in list order that authenticates, earlier ones asked once, later ones never; none => AllAuthFailed, no Generate, no CA call, no add; a handler that crashes while authenticating never counts as authenticated (error returned, no CA call, no add, no later handler used); the first handler that authenticates cannot generate => error, no CA call, no add, no later handler used; a handler authenticates (and generates) => the run succeeds with exactly one request from that handler; challenges are 64 bytes, filled and not mostly predictable text (fewer than 17 zero bytes, at least 36 different byte values: both fail for random bytes with a chance below 1e-14), only under the registered key, pairwise distinct over the history. Non-trivial: an adversarial agent while the key file exists, or a reject before an accept in a list of >= 2."
 
 // TestC01Slow: a forwarded agent that takes seconds to answer the challenge (and then proves
 // possession, refuses, or answers with another key), under a run deadline that is longer than that.
